@@ -603,6 +603,54 @@ func checkC12(c *Check) {
 					}
 				}
 			}
+			if !okKV && vParam(nm, 1)(store.Key) {
+				// a leaf the constructor kept in a field of the Route: every store of that field is made where the
+				// Route is built, from a leaf that is also recorded in Route.leaves there
+				if r0, ns, okF := fieldPath(store.Value); okF && len(ns) == 1 && vParam(nm, 0)(r0) {
+					if f := fieldOf(addrOfLoad(strip(store.Value))); f != nil {
+						ar := p.Meth("flamego", "router", "addRoute")
+						nSt, good := 0, ar != nil
+						for _, u := range p.FieldUses(f) {
+							if u.Kind != "store" {
+								continue
+							}
+							nSt++
+							st, isSt := u.Instr.(*ssa.Store)
+							if !isSt || u.Fn != ar {
+								good = false
+								continue
+							}
+							phiLeaves(st.Val, func(l ssa.Value) {
+								if vNil(l) {
+									return
+								}
+								e, isE := strip(l).(*ssa.Extract)
+								if !isE || e.Index != 0 {
+									good = false
+									return
+								}
+								cl, isC := e.Tuple.(*ssa.Call)
+								if !isC || callName(&cl.Call) != "route.AddRoute" {
+									good = false
+									return
+								}
+								recorded := false
+								allInstrs(ar, func(in ssa.Instruction) {
+									if mu, isMU := in.(*ssa.MapUpdate); isMU && strip(mu.Value) == ssa.Value(e) {
+										recorded = true
+									}
+								})
+								if !recorded {
+									good = false
+								}
+							})
+						}
+						if good && nSt > 0 {
+							okKV = true
+						}
+					}
+				}
+			}
 			c.Cond(okKV, k+":store", p.Pos(store.Pos()), "namedRoutes[name] = a leaf of this route", "Name() stores something other than one of the route's own leaves under the given name")
 		}
 	} else {
